@@ -116,7 +116,9 @@ def oracle_c02(tr):
                     return {"key": "negative-shares", "what": f"negative shares after {H.OPN[op[0]]}"}
         sa0, sl0 = sums(a0, tr.nb)
         sa1, sl1 = sums(a1, tr.nb)
-        closing = (op[0] == 2 and op[4] == 1) or (op[0] == 4 and op[4] == 1) or op[0] == 7
+        closing = (op[0] in (2, 35) and op[4] == 1) or (op[0] == 4 and op[4] == 1) or op[0] == 7
+        if op[0] == 36 and (sa1[op[1]] >= THR or sl1[op[1]] >= THR):
+            return {"key": "bank-closed-with-positions", "what": f"close_bank accepted on bank {op[1]} while accounts hold ({sa1[op[1]]},{sl1[op[1]]}) shares in it"}
         for k in range(tr.nb):
             d_tas = b1[k]["tas"] - b0[k]["tas"]
             d_tls = b1[k]["tls"] - b0[k]["tls"]
@@ -425,4 +427,26 @@ def oracle_c19(tr):
             got = n[name] - o[name]
             if (not fee and got != m // ONE) or (fee and not (0 <= got <= m // ONE)):
                 return {"key": "fee-destination-wrong", "what": f"{f} received {got}, expected {m // ONE}"}
+    return None
+
+
+# ------------------------------------------------------------------------------------------------
+# C08: the token-less repayment is the risk admin's power
+def oracle_tokenless_role(tr):
+    if not tr.ok:
+        return None
+    ra = -1
+    for op, res, b0, a0, b1, a1, now, prices in walk(tr):
+        if op[0] == 30:
+            ra = op[1]
+        if op[0] != 4 or res != "OK":
+            continue
+        a, k = op[1], op[2]
+        l0 = sum(s["l"] for s in a0[a]["slots"] if s["bank"] == k + 1)
+        l1 = sum(s["l"] for s in a1[a]["slots"] if s["bank"] == k + 1)
+        repaid_tokens = (l0 - l1) * b1[k]["lsv"] // (ONE * ONE)
+        if repaid_tokens >= 1 and b1[k]["vault"] <= b0[k]["vault"] and ra != a:
+            return {"key": "tokenless-repay-without-risk-admin",
+                    "what": f"repay by account {a} (risk admin is {ra}) cleared {repaid_tokens} tokens of debt in bank {k} "
+                            f"without any token reaching the vault (account flags {a0[a]['flags']}, bank flags {b0[k]['flags']})"}
     return None
